@@ -318,3 +318,152 @@
         assert!(iin.has_bad_request_error());
         kani::cover!(k % 10 == 3);
     }
+
+    // ---------------------------------------------------------------- C13: writing the restart bit
+    use crate::app::parse::range::Range;
+    use crate::util::verif_kani_clock as clk;
+
+    fn write_iin_contract<const COUNT: u16>() {
+        let mut s = make_session();
+        let bytes: [u8; 2] = kani::any();
+        let start: u16 = kani::any();
+        kani::assume(start <= 20);
+        let range = Range::from(start, start + COUNT - 1).unwrap();
+        let mut cur = scursor::ReadCursor::new(&bytes);
+        let bits = BitSequence::parse(range, &mut cur).unwrap();
+        let restart: bool = kani::any();
+        s.state.restart_iin_asserted = restart;
+        let bcast = any_bcast();
+        s.state.last_broadcast_type = bcast;
+        unsafe { INFO_CLEAR_RESTART = 0; }
+        let iin2 = s.handle_write_iin(bits);
+        // what was written: bit k of the sequence has index start+k and value = bit k of the bytes (LSB first)
+        let mut clears = 0usize;
+        let mut bad = false;
+        let mut k: u16 = 0;
+        while k < COUNT {
+            let v = (bytes[(k / 8) as usize] >> (k % 8)) & 1 == 1;
+            if start + k == 7 && !v { clears += 1; } else { bad = true; }
+            k += 1;
+        }
+        // the restart indication is cleared IFF the master wrote index 7 to zero
+        assert!(s.state.restart_iin_asserted == (restart && clears == 0));
+        assert!(unsafe { INFO_CLEAR_RESTART } == clears);
+        // anything else is rejected with PARAMETER_ERROR and only that
+        assert!(iin2.value == if bad { 0x04 } else { 0 });
+        assert!(s.state.last_broadcast_type == bcast);
+        kani::cover!(clears == 1 && !bad);
+        kani::cover!(clears == 0 && bad);
+        std::mem::forget(s);
+    }
+
+    // @harness ids=C13,C01 tier=quick kind=proof units=outstation::session::OutstationSession::handle_write_iin timeout=300 note="one bit written at any index 0..=20: restart cleared iff index 7 written 0; else PARAMETER_ERROR"
+    #[kani::proof]
+    #[kani::unwind(4)]
+    fn vk_c13_write_iin_count1() { write_iin_contract::<1>(); }
+
+    // @harness ids=C13,C01 tier=quick kind=proof units=outstation::session::OutstationSession::handle_write_iin timeout=300 note="nine bits written from any start index (two bytes)"
+    #[kani::proof]
+    #[kani::unwind(12)]
+    fn vk_c13_write_iin_count9() { write_iin_contract::<9>(); }
+
+    // ---------------------------------------------------------------- C18: outstation half of time synchronisation
+    use crate::app::parse::count::CountSequence;
+
+    /// returns a case code for the callers' covers: 0 wrong count, 1 nothing recorded, 2 clock rollback, 3 overflow, 4 accepted
+    fn write_last_recorded_contract<const COUNT: usize, const NB: usize>() -> (u8, i64, u8) {
+        let mut s = make_session();
+        let data: [u8; NB] = kani::any();
+        let seq: CountSequence<Group50Var3> = CountSequence::new(COUNT, &data);
+        let has_rec: bool = kani::any();
+        let (rec, rs, rn) = clk::any_instant();
+        let (_now, ns, nn) = clk::any_instant();
+        clk::set_now(ns, nn);
+        s.state.last_recorded_time = if has_rec { Some(rec) } else { None };
+        let app_result: u8 = kani::any();
+        kani::assume(app_result <= 2);
+        unsafe { APP_WRITE_TIME_CALLS = 0; APP_WRITE_TIME_RESULT = app_result; }
+        let iin2 = s.handle_write_at_last_recorded_time(seq);
+        let calls = unsafe { APP_WRITE_TIME_CALLS };
+        let d = clk::diff((rs, rn), (ns, nn));
+        let value: u64 = if NB >= 6 {
+            (data[0] as u64) | ((data[1] as u64) << 8) | ((data[2] as u64) << 16) | ((data[3] as u64) << 24) | ((data[4] as u64) << 32) | ((data[5] as u64) << 40)
+        } else { 0 };
+        let elapsed_ms: i64 = match d { Some(x) => clk::millis(x), None => 0 };
+        let fits = d.is_some() && (value as i64 + elapsed_ms) <= 0xFFFF_FFFF_FFFFi64;
+        let case: u8;
+        if COUNT != 1 || !has_rec || !fits {
+            // not exactly one g50v3, nothing recorded, clock went backwards, or 48-bit overflow: rejected, clock untouched
+            assert!(iin2.value == 0x04);
+            assert!(calls == 0);
+            assert!(s.state.last_recorded_time.is_some() == has_rec);
+            case = if COUNT != 1 { 0 } else if !has_rec { 1 } else if d.is_none() { 2 } else { 3 };
+        } else {
+            // the application is handed exactly (written value + time elapsed since RECORD_CURRENT_TIME)
+            assert!(calls == 1);
+            assert!(unsafe { APP_WRITE_TIME_ARG } as i64 == value as i64 + elapsed_ms);
+            assert!(s.state.last_recorded_time.is_none());
+            assert!(iin2.value == match app_result { 0 => 0, 1 => 0x04, _ => 0x01 });
+            case = 4;
+        }
+        std::mem::forget(s);
+        (case, elapsed_ms, app_result)
+    }
+
+    // @harness ids=C18,C01 tier=quick kind=proof stubs=1 units=outstation::session::OutstationSession::handle_write_at_last_recorded_time,app::types::Timestamp::checked_add timeout=600 note="LAN procedure write: exactly one g50v3, any value, any recorded and current instant: application receives value + elapsed ms; rejected (PARAMETER_ERROR, clock untouched) iff nothing recorded, clock rollback or 48-bit overflow; recorded time consumed"
+    #[kani::proof]
+    #[kani::unwind(3)]
+    #[kani::stub(tokio::time::Instant::now, crate::util::verif_kani_clock::stub_now)]
+    fn vk_c18_write_at_last_recorded_time() {
+        let (case, ms, app) = write_last_recorded_contract::<1, 6>();
+        kani::cover!(case == 1);
+        kani::cover!(case == 2);
+        kani::cover!(case == 3);
+        kani::cover!(case == 4 && ms > 65_535 && app == 0);
+        kani::cover!(case == 4 && ms == 0);
+    }
+
+    // @harness ids=C18,C01 tier=quick kind=proof stubs=1 units=outstation::session::OutstationSession::handle_write_at_last_recorded_time timeout=600 note="count 0 or 2 objects: rejected, clock untouched"
+    #[kani::proof]
+    #[kani::unwind(3)]
+    #[kani::stub(tokio::time::Instant::now, crate::util::verif_kani_clock::stub_now)]
+    fn vk_c18_write_at_last_recorded_time_bad_count() {
+        let two: bool = kani::any();
+        let (case, _, _) = if two { write_last_recorded_contract::<2, 12>() } else { write_last_recorded_contract::<0, 0>() };
+        assert!(case == 0);
+        kani::cover!(two);
+        kani::cover!(!two);
+    }
+
+    // @harness ids=C18,C12,C01 tier=quick kind=proof stubs=1 units=outstation::session::OutstationSession::handle_record_current_time,outstation::session::OutstationSession::handle_delay_measure,outstation::session::OutstationSession::handle_restart timeout=600 note="RECORD_CURRENT_TIME stores the current instant and answers with an empty solicited response; DELAY_MEASURE / restart answer FIR FIN !CON !UNS with the request's sequence and a 6-byte count-of-one object carrying the application's value"
+    #[kani::proof]
+    #[kani::unwind(8)]
+    #[kani::stub(tokio::time::Instant::now, crate::util::verif_kani_clock::stub_now)]
+    fn vk_c18_record_time_and_delay_measure() {
+        let mut s = make_session();
+        let (_n, ns, nn) = clk::any_instant();
+        clk::set_now(ns, nn);
+        let seq = Sequence::new(kani::any());
+        let r = s.handle_record_current_time(seq);
+        assert!(r.size == 0 && r.header.control.seq == seq && r.header.control.fir && r.header.control.fin && !r.header.control.con && !r.header.control.uns);
+        match s.state.last_recorded_time {
+            Some(t) => assert!(t.checked_duration_since(clk::mk_instant(ns, nn)) == Some(std::time::Duration::from_secs(0))),
+            None => assert!(false),
+        }
+        let delay: u16 = kani::any();
+        unsafe { APP_DELAY_MS = delay; }
+        let r2 = s.handle_delay_measure(seq);
+        assert!(r2.header.control.seq == seq && r2.header.control.fir && r2.header.control.fin && !r2.header.control.con && !r2.header.control.uns);
+        assert!(r2.header.function == ResponseFunction::Response && r2.header.iin == Iin::default());
+        // 4-byte response header is skipped; object = 34 02 07 01 lo hi
+        assert!(r2.size == 4 + 6);
+        let b = s.sol_tx_buffer.get(10).unwrap();
+        assert!(b[4] == 52 && b[5] == 2 && b[6] == 0x07 && b[7] == 1 && b[8] == (delay & 0xFF) as u8 && b[9] == (delay >> 8) as u8);
+        let rd = if kani::any() { Some(RestartDelay::Seconds(kani::any())) } else if kani::any() { Some(RestartDelay::Milliseconds(kani::any())) } else { None };
+        let r3 = s.handle_restart(seq, rd);
+        assert!(r3.header.control.seq == seq && !r3.header.control.uns && !r3.header.control.con);
+        match rd { None => assert!(r3.size == 0 && r3.header.iin.iin2.value == 0x01), Some(_) => assert!(r3.size == 10 && r3.header.iin == Iin::default()) }
+        kani::cover!(rd.is_none());
+        kani::cover!(delay == 0xFFFF);
+        std::mem::forget(s);
+    }
